@@ -1,3 +1,4 @@
+import AquaVerif.Drv.SoilTexture
 import AquaVerif.Drv.Session
 import AquaVerif.Drv.WeatherBind
 import AquaVerif.Drv.CropCalendar
@@ -78,7 +79,10 @@ def handlers : List (String × Handler) := [
   ("crop_calendar", hCropCalendar),
   ("reset_calendar", hResetCalendar),
   ("weather_bind", hWeatherBind),
-  ("session", hSession)
+  ("session", hSession),
+  ("soil_texture", hSoilTexture),
+  ("add_layer_from_texture", hAddLayerFromTexture),
+  ("cap_rise_params", hCapRiseParams)
 ]
 
 def step (ctx : Ctx) (line : String) : Ctx × String :=
